@@ -299,4 +299,4 @@ def h_virtual_array(has_cache):
 
 
 def jobs(tier):
-    return [(h_generate_and_check, (False,), 300), (h_generate_and_check, (True,), 300), (h_virtual_array, (True,), 300), (h_virtual_array, (False,), 300)]
+    return [(h_generate_and_check, (False,), 1800), (h_generate_and_check, (True,), 1800), (h_virtual_array, (True,), 1800), (h_virtual_array, (False,), 1800)]
